@@ -30,6 +30,10 @@ fn lib() -> (Vec<PkgSpec>, Vec<PkgSpec>) {
         PkgSpec::new("s:s5", None, &[("a:b/i@1.0.0", ifc.clone()), ("a:b/i@0.2.0", ifc.clone())], &[]),
         PkgSpec::new("s:s6", None, &[("c:d/e", ifc.clone())], &[("out", f0.clone())]),
         PkgSpec::new("s:s7", None, &[("x", f1.clone())], &[("out", f0.clone())]),
+        // two versions of one interface on ONE semver track, in ascending and descending order:
+        // a plug export named exactly like one of them belongs to that one, whatever the order
+        PkgSpec::new("s:s8", None, &[("a:b/i@0.2.0", ifc.clone()), ("a:b/i@0.2.1", ifc.clone())], &[("out", f0.clone())]),
+        PkgSpec::new("s:s9", None, &[("a:b/i@1.1.0", ifc.clone()), ("a:b/i@1.0.0", ifc.clone()), ("x", f0.clone())], &[]),
     ];
     let plugs = vec![
         PkgSpec::new("p:p0", None, &[], &[("x", f0.clone())]),
@@ -42,17 +46,27 @@ fn lib() -> (Vec<PkgSpec>, Vec<PkgSpec>) {
         PkgSpec::new("p:p7", None, &[("y", f0.clone())], &[("c:d/e", ifc.clone()), ("x", f0.clone())]),
         PkgSpec::new("p:p8", None, &[], &[("zz", f0.clone())]),
         PkgSpec::new("p:p9", None, &[], &[("a:b/i@1.0.0", i(&[("f", f1.clone())])), ("x", f0.clone())]),
+        PkgSpec::new("p:p10", None, &[], &[("a:b/i@0.2.0", ifc.clone()), ("a:b/i@0.2.1", ifc.clone())]),
+        PkgSpec::new("p:p11", None, &[], &[("a:b/i@0.2.2", ifc.clone())]),
     ];
     (sockets, plugs)
 }
 
 /// Which exports of `plug` offer a compatible item for socket import (name, ty).
-fn offers(plug: &PkgSpec, name: &str, ty: &Ty) -> Vec<String> {
-    let exact: Vec<String> = plug.exports.iter().filter(|(n, t)| n == name && t.is_subtype_of(ty)).map(|(n, _)| n.clone()).collect();
-    if !exact.is_empty() {
-        return exact;
+///
+/// "Under the same name or, failing that, a semver-compatible name": a plug that has an export
+/// named exactly like the import offers that export (if type-compatible) and nothing else;
+/// only without a same-named export does a semver-compatible one stand in - and, read from the
+/// export's side, only an export that has no same-named socket import of its own.
+fn offers(plug: &PkgSpec, socket: &PkgSpec, name: &str, ty: &Ty) -> Vec<String> {
+    if plug.exports.iter().any(|(n, _)| n == name) {
+        return plug.exports.iter().filter(|(n, t)| n == name && t.is_subtype_of(ty)).map(|(n, _)| n.clone()).collect();
     }
-    plug.exports.iter().filter(|(n, t)| n != name && same_track(n, name) && t.is_subtype_of(ty)).map(|(n, _)| n.clone()).collect()
+    plug.exports
+        .iter()
+        .filter(|(n, t)| same_track(n, name) && t.is_subtype_of(ty) && !socket.imports.iter().any(|(i, _)| i == n))
+        .map(|(n, _)| n.clone())
+        .collect()
 }
 
 struct Expect {
@@ -67,7 +81,7 @@ fn expect(socket: &PkgSpec, plugs: &[&PkgSpec]) -> Expect {
     for (name, ty) in &socket.imports {
         let mut v = Vec::new();
         for (pi, p) in plugs.iter().enumerate() {
-            let o = offers(p, name, ty);
+            let o = offers(p, socket, name, ty);
             if o.len() > 1 {
                 unspecified = true; // one plug, two candidates for one import: the statement is silent
             }
@@ -76,6 +90,15 @@ fn expect(socket: &PkgSpec, plugs: &[&PkgSpec]) -> Expect {
             }
         }
         offered.insert(name.clone(), v);
+    }
+    // one export without a same-named socket import but with two semver-compatible socket
+    // imports: the statement does not say which of them it supplies
+    for p in plugs {
+        for (e, _) in &p.exports {
+            if !socket.imports.iter().any(|(i, _)| i == e) && socket.imports.iter().filter(|(i, _)| same_track(i, e)).count() > 1 {
+                unspecified = true;
+            }
+        }
     }
     Expect { offered, unspecified }
 }
